@@ -346,6 +346,40 @@ func rC17Candidates(w *World, r *Report) {
 	}
 }
 
+// dashNameValue: v is the text "--<name>=<value>", written fmt.Sprintf("--%s=%s", name, value) or "--" + name + "=" + value;
+// returns the name operand (nil if it cannot be told).
+func dashNameValue(v ssa.Value) (ssa.Value, bool) {
+	if sp, ok := v.(*ssa.Call); ok && calleeName(sp) == "fmt.Sprintf" {
+		if f0, ok := constString(sp.Call.Args[0]); ok && f0 == "--%s=%s" {
+			if len(sp.Call.Args) > 1 {
+				if nels, _, ok := elementsOf(sp.Call.Args[1], map[ssa.Value]bool{}); ok && len(nels) >= 1 {
+					nm := nels[0]
+					if mi, isMI := nm.(*ssa.MakeInterface); isMI {
+						nm = mi.X
+					}
+					return nm, true
+				}
+			}
+			return nil, true
+		}
+		return nil, false
+	}
+	// (("--" + name) + "=") + value
+	b3, ok := v.(*ssa.BinOp)
+	if !ok || b3.Op != token.ADD {
+		return nil, false
+	}
+	b2, ok := b3.X.(*ssa.BinOp)
+	if !ok || b2.Op != token.ADD || !isConstStr(b2.Y, "=") {
+		return nil, false
+	}
+	b1, ok := b2.X.(*ssa.BinOp)
+	if !ok || b1.Op != token.ADD || !isConstStr(b1.X, "--") {
+		return nil, false
+	}
+	return b1.Y, true
+}
+
 // fromTyped: v is iterator.Value() or derived from it by TrimPrefix.
 func (m *parserModel) fromTyped(v ssa.Value) bool {
 	for i := 0; i < 4; i++ {
@@ -1250,7 +1284,7 @@ func rC17Sections(w *World, r *Report) {
 					hint = true
 				}
 			}
-			if hint {
+			if _, isNV := dashNameValue(e); hint && !isNV {
 				continue
 			}
 			n++
@@ -1259,17 +1293,13 @@ func rC17Sections(w *World, r *Report) {
 			for _, f := range factsAt(c.Block()) {
 				if f.Op == token.ILLEGAL && f.Truth {
 					if hc, ok := f.X.(*ssa.Call); ok && calleeName(hc) == "strings.HasPrefix" && m.fromTyped(hc.Call.Args[1]) {
-						if sp, ok := hc.Call.Args[0].(*ssa.Call); ok && calleeName(sp) == "fmt.Sprintf" {
-							if f0, ok := constString(sp.Call.Args[0]); ok && f0 == "--%s=%s" {
+						if nm, ok := dashNameValue(hc.Call.Args[0]); ok {
+							{
 								guarded = true
 								// the name written into the candidate is the table key that was matched against the typed word
 								// (an alias typed by the user must be completed as that alias)
-								if len(sp.Call.Args) > 1 {
-									if nels, _, ok := elementsOf(sp.Call.Args[1], map[ssa.Value]bool{}); ok && len(nels) >= 1 {
-										nm := nels[0]
-										if mi, isMI := nm.(*ssa.MakeInterface); isMI {
-											nm = mi.X
-										}
+								if nm != nil {
+									{
 										// the same value is the second operand of a dominating strings.HasPrefix(typed name, key)
 										isKey := false
 										for _, f2 := range factsAt(c.Block()) {
@@ -1324,10 +1354,8 @@ func rC17Sections(w *World, r *Report) {
 			for _, f := range factsAt(ac.Block()) {
 				if f.Op == token.ILLEGAL && f.Truth {
 					if hc, ok := f.X.(*ssa.Call); ok && calleeName(hc) == "strings.HasPrefix" && typedParams[hc.Call.Args[1]] {
-						if sp, ok := hc.Call.Args[0].(*ssa.Call); ok && calleeName(sp) == "fmt.Sprintf" {
-							if f0, ok := constString(sp.Call.Args[0]); ok && f0 == "--%s=%s" {
-								guarded = true
-							}
+						if _, ok := dashNameValue(hc.Call.Args[0]); ok {
+							guarded = true
 						}
 					}
 				}
